@@ -427,12 +427,13 @@ func delAllArgsStable(args []argsKV, key string) []argsKV {
 }
 
 func delAllArgs(args []argsKV, key string) []argsKV {
-	n := len(args)
-	for i := 0; i < n; i++ {
-		if key == string(args[i].key) {
-			args[i], args[n-1] = args[n-1], args[i]
-			n--
-			i--
+	// Move the entries to keep to the front without changing their order.
+	// The removed entries end up behind them, so their buffers get reused.
+	n := 0
+	for i := range args {
+		if key != string(args[i].key) {
+			args[n], args[i] = args[i], args[n]
+			n++
 		}
 	}
 	return args[:n]
